@@ -69,6 +69,9 @@ pub enum Step {
     Feed { res: u16, n: u16 },
     /// `k` turns of the event loop
     Turn { k: u8 },
+    /// only the driver half of a turn (completions recorded, no task runs): the next step acts while
+    /// a completion that already selected a buffer has not been seen by its future yet
+    PollOnly,
     /// drop one held buffer (index mapped into the live table)
     DropBuf { ix: u16 },
     DropAllBufs,
@@ -672,6 +675,7 @@ fn run_inner(case: &Rc<PoolCase>) -> Outcome {
                 feed(&resources[ri], ri, &mut st.borrow_mut().models[ri], *n as usize);
             }
             Step::Turn { k } => turns(&rt, *k as usize, Duration::from_millis(1)),
+            Step::PollOnly => netlab::poll_only(&rt, Duration::from_millis(1)),
             Step::DropBuf { ix } => {
                 let n = st.borrow().held.len();
                 if n > 0 {
@@ -896,6 +900,7 @@ fn step() -> impl Strategy<Value = Step> + Clone {
         5 => (any::<u16>(), op()).prop_map(|(res, op)| Step::Start { res, op }),
         7 => (any::<u16>(), prop_oneof![3 => 1u16..=30, 2 => 31u16..=300]).prop_map(|(res, n)| Step::Feed { res, n }),
         5 => (1u8..=4).prop_map(|k| Step::Turn { k }),
+        2 => Just(Step::PollOnly),
         3 => any::<u16>().prop_map(|ix| Step::DropBuf { ix }),
         1 => Just(Step::DropAllBufs),
         2 => any::<u16>().prop_map(|ix| Step::Cancel { ix }),
@@ -946,6 +951,7 @@ fn normalised(c: &PoolCase) -> PoolCase {
 static EXCLUDE_FUSION_POLL: std::sync::atomic::AtomicBool = std::sync::atomic::AtomicBool::new(false);
 
 fn main() {
+    netlab::raise_nofile();
     let mut s = Session::new();
     if s.known_signatures("C14").iter().any(|k| k.contains("empty-payload/poll") || k.contains("empty-item-before-eof/poll")) {
         EXCLUDE_FUSION_POLL.store(true, std::sync::atomic::Ordering::Relaxed);
@@ -955,7 +961,7 @@ fn main() {
         "pool",
         "case = driver {io_uring buffer ring, polling driver's fallback pool} x pool size 1..16 x buffer length 16..256 x 1-3 resources (pipe, TCP, Unix stream, UDP, file) whose peer end the \
          harness holds x program of 0-40 steps: Start(op on a resource: read_managed / recv_managed / read_managed_at, recv_from_managed, recv_msg_managed / read_managed_with_ancillary, and the \
-         streams read_multi / recv_multi, recv_from_multi, recv_msg_multi / read_multi_with_ancillary taking 1-5 items then dropped), Feed(n position-coded bytes or one datagram), Turn(k loop turns), \
+         streams read_multi / recv_multi, recv_from_multi, recv_msg_multi / read_multi_with_ancillary taking 1-5 items then dropped), Feed(n position-coded bytes or one datagram), Turn(k loop turns), PollOnly (driver half of a turn), \
          DropBuf(i), DropAllBufs, Cancel(i-th pending op), CloseFeed; every delivered buffer is kept by the harness until a Drop step; afterwards everything is released, the pool is counted \
          (N reads held at once, the N+1-th must error) and 0-4 buffers are held across the runtime's drop under a tracking allocator. Non-trivial = some buffer was still held when a later \
          completion arrived, or a multishot stream was dropped before its end; distinct = distinct serialised case.",
